@@ -56,8 +56,8 @@ class NodeData:
     children: list[Node] = field(default_factory=list, repr=False)
     metadata: dict[str, Any] = field(default_factory=dict)
 
-    def _to_serial(self, node: Node) -> SerialOp:
-        o = self.op._to_serial(self.parent if self.parent else node)
+    def _to_serial(self, parent: Node) -> SerialOp:
+        o = self.op._to_serial(parent)
 
         return SerialOp(root=o)  # type: ignore[arg-type]
 
@@ -645,22 +645,28 @@ class Hugr(Mapping[Node, NodeData], Generic[OpVarCov]):
 
     def _to_serial(self) -> SerialHugr:
         """Serialize the HUGR."""
-        live_nodes = [node for node in self._nodes if node is not None]
+        # non contiguous indices are erased: every index written to the
+        # serialized form is taken from this renumbering
+        order = [Node(idx) for idx, data in enumerate(self._nodes) if data is not None]
+        rekey = {node: Node(idx, {}) for idx, node in enumerate(order)}
+
+        def _serialize_node(node: Node) -> SerialOp:
+            data = self[node]
+            # the root is its own parent
+            parent = rekey[data.parent] if data.parent is not None else rekey[node]
+            return data._to_serial(parent)
 
         def _serialize_link(
             link: tuple[_SO, _SI],
         ) -> tuple[tuple[NodeIdx, PortOffset], tuple[NodeIdx, PortOffset]]:
             src, dst = link
             s, d = self._constrain_offset(src.port), self._constrain_offset(dst.port)
-            return (src.port.node.idx, s), (dst.port.node.idx, d)
+            return (rekey[src.port.node].idx, s), (rekey[dst.port.node].idx, d)
 
         return SerialHugr(
-            # non contiguous indices will be erased
-            nodes=[
-                node._to_serial(Node(idx, {})) for idx, node in enumerate(live_nodes)
-            ],
+            nodes=[_serialize_node(node) for node in order],
             edges=[_serialize_link(link) for link in self._links.items()],
-            metadata=[node.metadata if node.metadata else None for node in live_nodes],
+            metadata=[self[node].metadata or None for node in order],
         )
 
     def _constrain_offset(self, p: P) -> PortOffset:
